@@ -42,7 +42,16 @@ fn source(line: &Value, conc: &Concretisation, flags: bool) -> Scenario {
         } else {
             (false, None)
         };
-        s.terms.push(TermSpec { id, name: format!("T{id}"), obsolete, repl });
+        // names are copied verbatim: the second layout uses names beyond the 255 bytes a binary file can hold
+        // (a source that itself comes from a binary file - flags - can only have up to 255 bytes)
+        let name = if conc.name != "layout1" {
+            format!("T{id}")
+        } else if flags {
+            format!("T{id} {}", "é".repeat(120))
+        } else {
+            format!("T{id} {} end", "é".repeat(150))
+        };
+        s.terms.push(TermSpec { id, name, obsolete, repl });
     }
     for e in arr(&line["edges"]) {
         s.edges.push((conc.get(as_u32(&e[0])), conc.get(as_u32(&e[1]))));
@@ -50,7 +59,7 @@ fn source(line: &Value, conc: &Concretisation, flags: bool) -> Scenario {
     for k in KINDS {
         for r in arr(&line[k.name()]) {
             let x = as_u32(&r["id"]);
-            let name = format!("{}{}#{}", k.name(), x, x);
+            let name = if conc.name == "layout1" && !flags { format!("{}{}#{} {}", k.name(), x, x, "ü".repeat(140)) } else { format!("{}{}#{}", k.name(), x, x) };
             let hpos = u32_list(&r["hpos"]);
             if hpos.is_empty() {
                 s.facts.push(Fact { kind: k, x, name: name.clone(), term: None });
@@ -119,6 +128,15 @@ fn check_result(what: &str, src: &Ontology, scn: &Scenario, line: &Value, conc: 
         if let Some(e) = exp.terms.get_mut(&t.id) {
             e.obsolete = t.obsolete;
             e.repl = t.repl;
+            e.name = t.name.clone();
+        }
+    }
+    // record names: the name the source was given (first name wins; every fact of a record carries the same name here)
+    for (k, kind) in KINDS.iter().enumerate() {
+        for (x, r) in exp.recs[k].iter_mut() {
+            if let Some(f) = scn.facts.iter().find(|f| f.kind == *kind && f.x == *x) {
+                r.name = f.name.clone();
+            }
         }
     }
     match catch(|| compare(&sub, &exp, &[Focus::Struct, Focus::Ann, Focus::Ic, Focus::Meta])) {
